@@ -345,16 +345,17 @@ def emitAll (tb : Tables) : List WDP → List Rec
   | d :: ds => emitDP tb d ++ emitAll (tb.ensure d) ds
 
 /-- the session block (persistence.py:359-381): `#!…`, start time, environment, source,
-and the header when the file was empty -/
-def blockRecs (empty : Bool) : List Rec :=
-  [.session, .comment, .comment, .comment] ++ (if empty then [.header] else [])
+and the header when the file was empty.  `glued`: the file ended in a torn line without
+newline, so the `#!` line became part of that line and is not seen as a record of its own -/
+def blockRecs (glued empty : Bool) : List Rec :=
+  (if glued then [] else [.session]) ++ [.comment, .comment, .comment] ++ (if empty then [.header] else [])
 
 /-- everything a session appends for the data points `ds` (nothing when there are none:
 the file is opened lazily, persistence.py:429-431) -/
-def sessionRecs (empty : Bool) (tb : Tables) (ds : List WDP) : List Rec :=
+def sessionRecs (glued empty : Bool) (tb : Tables) (ds : List WDP) : List Rec :=
   match ds with
   | [] => []
-  | _ => blockRecs empty ++ emitAll tb ds
+  | _ => blockRecs glued empty ++ emitAll tb ds
 
 /-! ## The executor's resume logic -/
 
